@@ -876,6 +876,12 @@ impl VisitMut for Pass {
                     self.rw.note("X2", line);
                 }
             }
+            // X2: unary minus as the trait call it desugars to
+            Expr::Unary(u) if matches!(u.op, syn::UnOp::Neg(_)) => {
+                let inner = &u.expr;
+                *e = parse_quote!(::core::ops::Neg::neg(#inner));
+                self.rw.note("X2", line);
+            }
             // X11: e? with error conversion -> the match it is defined to be
             Expr::Try(t) if self.rw.try_match => {
                 let inner = &t.expr;
